@@ -363,8 +363,16 @@ def verdict_lit(v):
     return "(VOk %s)" % shape_lit(v[1])
 
 
-def query_lit(case, sh):
+PAIR_QUERY = {"add_op": "PAdd", "torch_add": "PAdd", "sub_op": "PSub", "torch_sub": "PSub", "mul_op": "PMul",
+              "torch_mul": "PMul", "matmul_op": "PMatmul", "torch_matmul": "PMatmul"}
+
+
+def query_lit(case, sh, rec=None):
     o, arg = case["op"], case["arg"]
+    if o in PAIR_QUERY:
+        if rec is None or rec.get("rhs_shape") is None or (rec.get("impl_of") or [""])[0].startswith("flipped:"):
+            return None      # torch.<fn>(L, R) dispatched to the reflected method of a subclass R: predicate only
+        return '(QPair %s "%s"%%string %s)' % (PAIR_QUERY[o], rec["rhs_cls"], shape_lit(rec["rhs_shape"]))
     if case["kind"].startswith("nonsquare") and o in SQUARE_ENTRY:
         return "(QSquare %s)" % SQUARE_ENTRY[o]
     if o in ENTRY_OF:
@@ -533,7 +541,7 @@ def run_unit(args):
             except Exception:                           # the right operand could not be built: not a case
                 continue
             recs.append({"tag": tag, "expr": e, "cls": cn, "shape": list(DL.shape), "case": case, "impl": impl, "torch": ref,
-                         "rhs_cls": rcls[0], "impl_of": impl_of(L, case["op"], rcls[1]), "left": left})
+                         "rhs_cls": rcls[0], "rhs_shape": rcls[2], "impl_of": impl_of(L, case["op"], rcls[1]), "left": left})
     B = sh[:-2]
     sq = sh[-1] == sh[-2]
     if not (quick and B and not sq):                          # quick: rectangular batched lefts only in the tensor grid
@@ -590,6 +598,36 @@ def predicate_failures(ctx, recs):
                            "what": "torch refuses this operand/index for the dense matrix but the operator returns a value"},
                           key=key)
     return n
+
+
+def run_shards(ctx, shards, timeout=900):
+    """common.run_shards with at most WORKERS coqc processes at any time (a pool over all shards, no barriers)"""
+    from concurrent.futures import ThreadPoolExecutor
+    paths = []
+    for name, src in shards:
+        p = os.path.join(ctx.gen, "cases_%s.v" % name)
+        with open(p, "w") as f:
+            f.write(src)
+        paths.append((name, p))
+
+    def one(np):
+        name, p = np
+        return name, common.coqc_file(ctx.prop, p, timeout=timeout)
+    res = {}
+    with ThreadPoolExecutor(max_workers=WORKERS) as ex:
+        for name, r in ex.map(one, paths):
+            res[name] = r
+    for name, p in paths:
+        for ext in (".vo", ".vok", ".vos", ".glob"):
+            try:
+                os.remove(p[:-2] + ext)
+            except OSError:
+                pass
+        try:
+            os.remove(os.path.join(os.path.dirname(p), "." + os.path.basename(p)[:-2] + ".aux"))
+        except OSError:
+            pass
+    return res
 
 
 def _freeze_known_findings():
@@ -651,7 +689,7 @@ def run(ctx):
     rows, back = [], []
     seen = set()
     for i, r in enumerate(recs):
-        q = query_lit(r["case"], r["shape"])
+        q = query_lit(r["case"], r["shape"], r)
         if q is None:
             continue
         row = (r["cls"], shape_lit(r["shape"]), q, verdict_lit(r["impl"]), verdict_lit(r["torch"]))
@@ -666,8 +704,7 @@ def run(ctx):
     mism, n_modelled, mism_samples = [], 0, []
     if ok:
         res = {}
-        for g in range(0, len(shards), 6):          # at most 6 shard compilers at a time
-            res.update(common.run_shards(ctx, shards[g:g + 6]))
+        res = run_shards(ctx, shards)
         import re
         for si, (name, _) in enumerate(shards):
             rc, out = res[name]
@@ -721,17 +758,34 @@ def run(ctx):
     pair_recs = [r for r in recs if r["case"]["op"] in c19_pairs.PAIR_OPS and r.get("rhs_cls") != "Tensor"]
     class_pairs = {(r["cls"], r["rhs_cls"]) for r in pair_recs}
     class_pairs_invalid = {(r["cls"], r["rhs_cls"]) for r in pair_recs if r["torch"][0] == "raise"}
-    dispatch_targets = {r.get("impl_of") for r in pair_recs}
+    dispatch_targets = {tuple(r.get("impl_of") or ()) for r in pair_recs}
     left_forms = {r.get("left") for r in pair_recs}
     ops = {}
     for r in recs:
         ops[r["case"]["op"]] = ops.get(r["case"]["op"], 0) + 1
 
     def sample(r):
-        return {"class": r["cls"], "operator_shape": r["shape"], "op": r["case"]["op"], "shape_class": r["case"]["kind"],
-                "arg": {k: v for k, v in r["case"]["arg"].items() if k != "data"} if isinstance(r["case"]["arg"], dict) else None,
-                "implementation": r["impl"], "torch_on_dense": r["torch"]}
-    smp = [sample(r) for r in (invalid[len(invalid) // 3:len(invalid) // 3 + 1] + recs[-1:])] if recs else []
+        arg = r["case"]["arg"]
+        if isinstance(arg, dict):
+            arg = {k: (v if k != "rhs" else {"cls": v.get("cls"), "shape": ob_shape(v)}) for k, v in arg.items() if k != "data"}
+        else:
+            arg = None
+        out = {"class": r["cls"], "operator_shape": r["shape"], "op": r["case"]["op"], "shape_class": r["case"]["kind"],
+               "arg": arg, "implementation": r["impl"], "torch_on_dense": r["torch"]}
+        if "rhs_cls" in r:
+            out.update({"rhs_class": r["rhs_cls"], "dispatches_to": r["impl_of"], "left": r["left"]})
+        return out
+
+    def ob_shape(e):
+        from . import opbuild as ob
+        try:
+            return ob.shape_of(e)
+        except Exception:
+            return None
+    tens = [r for r in invalid if "rhs_cls" not in r]
+    pinv = [r for r in pair_recs if r["torch"][0] == "raise" and r["impl"][0] == "raise"]
+    smp = [sample(r) for r in (tens[len(tens) // 3:len(tens) // 3 + 1] + pinv[len(pinv) // 2:len(pinv) // 2 + 1] + recs[-1:])] \
+        if recs else []
     rows_meta = meta["rows"]
     ctx.coverage.update({
         "trusted_base": common.COQ_TRUSTED + [
@@ -748,13 +802,19 @@ def run(ctx):
         "evaluations": len(recs),
         "distinct_nontrivial": len(inv_cells),
         "rule": "one evaluation = one (operator instance, operation, operand/index) call on the implementation and on the dense "
-                "matrix; non-trivial = torch refuses the call on the dense matrix; distinct by (runtime class, operation, "
-                "shape/index class) — batch variants of the same cell are not counted again",
+                "matrix (for operator operands: on the two dense matrices); non-trivial = torch refuses the call on the dense "
+                "operands; distinct by (runtime class of the left operand, operation, shape/index class, runtime class of the "
+                "right operand, form of the left operand) — batch variants of the same cell are not counted again",
         "cells_total": len(cells), "cells_invalid": len(inv_cells), "cells_silent_on_this_tree": len(silent_cells),
         "valid_controls": len(recs) - len(invalid),
         "cases_in_shards": len(rows), "cases_with_model_prediction": n_modelled,
         "model_or_spec_mismatches": len(mism), "mismatch_samples": mism_samples[:40], "direct_property_failures_cells": n_pred,
         "per_operation": ops, "classes": len({r["cls"] for r in recs}),
+        "operator_pair_evaluations": len(pair_recs),
+        "ordered_class_pairs": len(class_pairs), "ordered_class_pairs_with_refused_operand": len(class_pairs_invalid),
+        "right_operand_classes": len({r["rhs_cls"] for r in pair_recs}),
+        "dispatch_targets": sorted("/".join(x for x in t if x) for t in dispatch_targets),
+        "left_operand_forms": sorted(x for x in left_forms if x),
         "guard_table_rows": len(rows_meta), "guard_table_classes": len(meta["classes"]),
         "samples": smp,
     })
@@ -763,7 +823,8 @@ def run(ctx):
         "checks are skipped",
         "a lazily constructed result whose .shape cannot be read counts as raising; one that advertises a shape counts as "
         "returned (also when producing its dense form fails later)",
-        "operands are torch tensors or DenseLinearOperator-wrapped tensors; the guard-table theorems cover tensor operands",
+        "second operands are torch tensors or operators of every constructor class of harness/opbuild.py; the guard-table "
+        "theorems cover tensor operands, the operator-operand theorems the transcribed __add__ / mul overrides",
         "solve / inv_quad are compared with the shape rule of A^{-1} B (torch.matmul's rule on the dense operands, square A)",
         "no zero-size dimensions",
     ]
